@@ -92,6 +92,8 @@ inductive Exc where
   | runtimeError
   deriving DecidableEq, Repr
 
+deriving instance DecidableEq for Except
+
 /-- the validity test `with_suffix` applies to its argument -/
 def suffixOk (ext : Name) : Bool :=
   !(ext.contains SLASH) && !((ext ≠ [] ∧ ext.head? ≠ some DOT) ∨ ext = dot)
@@ -275,7 +277,7 @@ structure FSLConfig where
   rejectSymlinks : Bool
 
 /-- `source_path.exists() and source_path.is_file()` inside `try … except OSError: continue`
-(`none` = the `continue`) -/
+(`false` = the `continue`) -/
 def fslProbe (fs : FS) (src : PPath) : Except Exc Bool :=
   match pyExists fs src with
   | .error .osError => .ok false
